@@ -675,13 +675,16 @@ Lemma enber_tl_def kind tag n : tag_ok tag -> 0 <= n <= rssize_max -> (kind = 0 
   ((if kind =? 0 then tag_serialize tag else mark_constructed (tag_serialize tag)) ++ len_serialize n, None).
 Proof.
   intros Ht Hn Hk. unfold enber_tl.
-  destruct (tag_serialize_shape tag Ht) as (b & tl & Hts & _).
-  destruct (len_serialize_shape n Hn) as (lb & ltl & Hls & _).
+  destruct (tag_serialize_shape tag Ht) as (b & tl & Hts & _ & _ & _ & Htl5).
+  destruct (len_serialize_shape n Hn) as (lb & ltl & Hls & _ & Hltl8).
   assert (H2 : 2 <= zlen (tag_serialize tag) + zlen (len_serialize n)).
   { rewrite Hts, Hls, !zlen_cons. pose proof (zlen_nonneg tl). pose proof (zlen_nonneg ltl). lia. }
+  assert (H15 : zlen (tag_serialize tag) + zlen (len_serialize n) <= 15).
+  { rewrite Hts, Hls, !zlen_cons. unfold zlen. lia. }
   replace (kind =? 2) with false by lia.
   set (T := zlen (tag_serialize tag) + zlen (len_serialize n)) in *.
-  replace ((negb (T =? 0) && (T <? 2)) || (n <? 0)) with false by lia.
+  unfold rssize_max in Hn.
+  replace ((negb (T =? 0) && (T <? 2)) || (two63 <=? T) || (n <? 0) || (two63 <=? n)) with false by (unfold two63; lia).
   rewrite (reparse_tag_ok tag Ht). rewrite zlen_app. fold T. rewrite Z.eqb_refl.
   replace (negb (T =? 0) && negb true) with false by (cbn; lia).
   destruct Hk as [-> | ->]; cbn [Z.eqb]; [reflexivity|]. rewrite set_constr_mark by exact Ht. reflexivity.
@@ -691,12 +694,14 @@ Lemma enber_tl_indef tag : tag_ok tag ->
   enber_tl 2 tag (zlen (tag_serialize tag) + 1) (-1) = (mark_constructed (tag_serialize tag) ++ [128], None).
 Proof.
   intros Ht. unfold enber_tl.
-  destruct (tag_serialize_shape tag Ht) as (b & tl & Hts & _).
+  destruct (tag_serialize_shape tag Ht) as (b & tl & Hts & _ & _ & _ & Htl5).
   assert (H2 : 2 <= zlen (tag_serialize tag) + 1).
   { rewrite Hts, !zlen_cons. pose proof (zlen_nonneg tl). lia. }
   change (2 =? 2) with true. cbv iota.
+  assert (H15 : zlen (tag_serialize tag) + 1 <= 15).
+  { rewrite Hts, !zlen_cons. unfold zlen. lia. }
   set (T := zlen (tag_serialize tag) + 1) in *.
-  replace ((negb (T =? 0) && (T <? 2)) || (0 <? 0)) with false by lia.
+  replace ((negb (T =? 0) && (T <? 2)) || (two63 <=? T) || (0 <? 0) || (two63 <=? 0)) with false by (unfold two63; lia).
   rewrite (reparse_tag_ok tag Ht). rewrite zlen_app. change (zlen [128]) with 1. fold T. rewrite Z.eqb_refl.
   replace (negb (T =? 0) && negb true) with false by (cbn; lia).
   change (2 =? 0) with false. cbv iota. rewrite set_constr_mark by exact Ht. reflexivity.
